@@ -1193,6 +1193,15 @@ func (r *gRun) load(a gv, ft types.Type, pos token.Pos) gv {
 	case gNil:
 		r.fail("nil", pos, "load through nil pointer")
 		panic(gAbort{"nil dereference"})
+	case gOpaque:
+		if strings.HasPrefix(x.Desc, "global ") {
+			// a value kept in a package-level variable: whatever the action builds from it is shared by
+			// every tree (and every slot) it is stored in - C12: no node object reachable along two paths
+			r.fail("shared", pos, "the action uses the value of package-level variable %s: an object stored from it is reachable from every place it is stored in", strings.TrimPrefix(x.Desc, "global "))
+			o := r.newObj("node", x.Desc)
+			o.Input = true
+			return gRef{o}
+		}
 	}
 	r.fail("subset", pos, "load through %s", describeG(a))
 	panic(gAbort{"unmodelled load"})
